@@ -62,23 +62,14 @@ Theorem C17_reads_happen_after_write :
 Proof. exact reads_happen_after_write. Qed.
 Print Assumptions C17_reads_happen_after_write.
 
-(* If every type is supported (no generator panics): no call ends in an
-   error, and no call waits for ever - a state in which no thread can move has
-   every thread finished with all its jobs. *)
-Theorem C17_supported_calls_return_sequential_result :
-  forall (tb : ttable) (jobs : list (list job)) (sched : list nat) (th : thread) (jr : job * result),
-    supported tb ->
-    In th (st_threads (run tb (init jobs) sched)) -> In jr (th_done th) ->
-    exists kinds, snd jr = ROk (ref tb (snd (fst jr)) (fst (fst jr))) kinds.
-Proof. exact supported_results. Qed.
-Print Assumptions C17_supported_calls_return_sequential_result.
-
-Theorem C17_supported_no_call_waits_for_ever :
+(* Every call returns, whatever the type table (unsupported types included):
+   a state in which no thread can move any more has every thread finished with
+   all its jobs.  (A failed generation releases its WaitGroup on the way out.) *)
+Theorem C17_all_calls_return :
   forall (tb : ttable) (jobs : list (list job)) (sched : list nat),
-    supported tb ->
     stuck tb (run tb (init jobs) sched) = true -> all_finished (run tb (init jobs) sched) = true.
-Proof. exact supported_no_deadlock. Qed.
-Print Assumptions C17_supported_no_call_waits_for_ever.
+Proof. exact no_deadlock. Qed.
+Print Assumptions C17_all_calls_return.
 
 Theorem C17_finished_threads_did_all_their_jobs :
   forall (tb : ttable) (jobs : list (list job)) (sched : list nat) (th : thread),
@@ -87,14 +78,45 @@ Theorem C17_finished_threads_did_all_their_jobs :
 Proof. exact finished_all_jobs. Qed.
 Print Assumptions C17_finished_threads_did_all_their_jobs.
 
+(* A call ends in an error only if it really involves an unsupported type:
+   generating the function for its type runs into one ([gen_bad]) or the value
+   leads to a type whose generation does ([call_bad]).  Nobody else's failure
+   makes a healthy call fail. *)
+Theorem C17_calls_fail_only_on_unsupported_types :
+  forall (tb : ttable) (jobs : list (list job)) (sched : list nat) (th : thread) (jr : job * result),
+    In th (st_threads (run tb (init jobs) sched)) -> In jr (th_done th) -> snd jr = RPanic ->
+    job_bad tb (fst (fst jr)) (snd (fst jr)).
+Proof. exact failures_are_genuine. Qed.
+Print Assumptions C17_calls_fail_only_on_unsupported_types.
+
+(* The run-alone result of the model ([alone]: the job as the only job ever
+   run on a new session) obeys the same laws. *)
+Theorem C17_alone_ok_is_reference :
+  forall (tb : ttable) (j : job) tr kinds, alone tb j = Some (ROk tr kinds) -> tr = ref tb (snd j) (fst j).
+Proof. exact alone_ok_is_reference. Qed.
+Print Assumptions C17_alone_ok_is_reference.
+
+Theorem C17_alone_panic_is_genuine :
+  forall (tb : ttable) (j : job), alone tb j = Some RPanic -> job_bad tb (fst j) (snd j).
+Proof. exact alone_panic_is_genuine. Qed.
+Print Assumptions C17_alone_panic_is_genuine.
+
+(* If every type of the table is supported, every finished call has the
+   reference result. *)
+Theorem C17_supported_calls_return_sequential_result :
+  forall (tb : ttable) (jobs : list (list job)) (sched : list nat) (th : thread) (jr : job * result),
+    supported tb ->
+    In th (st_threads (run tb (init jobs) sched)) -> In jr (th_done th) ->
+    exists kinds, snd jr = ROk (ref tb (snd (fst jr)) (fst (fst jr))) kinds.
+Proof. exact supported_results. Qed.
+Print Assumptions C17_supported_calls_return_sequential_result.
+
 (* ------------------------------------------------------------------------- *)
-(* The full property, and where the code violates it *)
+(* The full property, and where the code still violates it *)
 
 (* "Each call returns exactly what it returns when run alone, and no data race
-   occurs": no race; every finished call has the run-alone result
-   ([alone]: the model's result of the same job as the only job on a new
-   session); and every call does return (nobody is left waiting when nothing
-   can move any more). *)
+   occurs": no race; every finished call has the run-alone result; every call
+   returns. *)
 Definition C17_full : Prop :=
   forall (tb : ttable) (jobs : list (list job)) (sched : list nat),
     let s := run tb (init jobs) sched in
@@ -102,75 +124,81 @@ Definition C17_full : Prop :=
     (forall th jr, In th (st_threads s) -> In jr (th_done th) -> same_result (alone tb (fst jr)) (snd jr) = true) /\
     (stuck tb s = true -> all_finished s = true).
 
-(* Defect 1 (never returns after a failed first use).  Type 0 is unsupported
-   (a chan, func or complex field).  The first call fails, as it does alone -
-   but the placeholder stays in the cache with its WaitGroup at 1, so the same
-   call made again on the same session (here by the same thread) waits for
-   ever, although alone it returns (an error). *)
-Definition c17_bad_table : ttable := [(0, TBad); (1, TNode [0])].
+(* Since the repair of the failure path (a failed generation deletes its
+   placeholder, assigns an error function and calls Done) the first and the
+   third part hold for every table (C17_no_data_race, C17_all_calls_return).
+   The second part still fails in one situation: a generated function that was
+   COMPLETED while it held the placeholder of a type whose generation then
+   FAILED stays in the cache.  A later call that gets this function and does
+   not reach the dead placeholder succeeds, although alone it fails.
 
-Theorem C17_never_returns_refuted :
-  exists (tb : ttable) (jobs : list (list job)) (sched : list nat),
-    let s := run tb (init jobs) sched in
-    stuck tb s = true /\ all_finished s = false /\
-    (forall j, In j (concat jobs) -> alone tb j = Some RPanic).
-Proof.
-  exists c17_bad_table, [[(0, V []); (0, V [])]], (repeat 0%nat 20).
-  split; [vm_compute; reflexivity|]. split; [vm_compute; reflexivity|].
-  intros j [<-|[<-|[]]]; vm_compute; reflexivity.
-Qed.
-Print Assumptions C17_never_returns_refuted.
+   Sequential witness (mutually recursive types with an unsupported field):
+   0 = struct { *2 ; chan }, 1 = *2, 2 = struct { *0 }, 3 = *0, 4 = chan.
+   Generating 0 completes the functions for 3, 2 and 1 (3 captured the
+   placeholder of 0) and then fails on 4.  The next call for type 2 with an
+   empty value returns normally; alone it fails. *)
+Definition c17_rec_table : ttable := [(0, TNode [1; 4]); (1, TNode [2]); (2, TNode [3]); (3, TNode [0]); (4, TBad)].
 
-(* The same with two threads racing on the unsupported type: one gets the
-   error, the other waits for ever. *)
-Theorem C17_never_returns_concurrent_refuted :
-  exists (tb : ttable) (jobs : list (list job)) (sched : list nat),
-    let s := run tb (init jobs) sched in
-    stuck tb s = true /\ all_finished s = false /\
-    (forall j, In j (concat jobs) -> alone tb j = Some RPanic).
-Proof.
-  exists c17_bad_table, [[(0, V [])]; [(0, V [])]], [0; 1; 0; 1; 0; 1; 0; 1; 0; 1; 0; 1; 0; 1; 0; 1]%nat.
-  split; [vm_compute; reflexivity|]. split; [vm_compute; reflexivity|].
-  intros j [<-|[<-|[]]]; vm_compute; reflexivity.
-Qed.
-Print Assumptions C17_never_returns_concurrent_refuted.
-
-(* Defect 2 (the result changes after a failed first use).  Type 1 holds type
-   0 (e.g. a slice of it).  Alone, a call for type 1 fails.  After a failed
-   call for type 0 on the same session, the call for type 1 with an empty
-   value succeeds: it picks up the stale placeholder. *)
 Theorem C17_result_changes_refuted :
   exists (tb : ttable) (jobs : list (list job)) (sched : list nat) (th : thread) (jr : job * result),
     In th (st_threads (run tb (init jobs) sched)) /\ In jr (th_done th) /\
     same_result (alone tb (fst jr)) (snd jr) = false.
 Proof.
-  exists c17_bad_table, [[(0, V []); (1, V [])]], (repeat 0%nat 40).
-  eexists. exists ((1, V []), ROk [1] [false]).
+  exists c17_rec_table, [[(0, V []); (2, V [])]], (repeat 0%nat 120).
+  eexists. exists ((2, V []), ROk [2] [false]).
   split; [vm_compute; left; reflexivity|]. split; [vm_compute; right; left; reflexivity | vm_compute; reflexivity].
 Qed.
 Print Assumptions C17_result_changes_refuted.
 
+(* Concurrent witness without recursion: 0 is unsupported, 1 = a holder of 0
+   (slice, pointer).  Thread 0 asks for 0, thread 1 for 1 with an empty value.
+   Thread 1 picks up thread 0's placeholder between thread 0's LoadOrStore and
+   its Delete, completes and stores the function for 1, and returns normally. *)
+Theorem C17_result_changes_concurrent_refuted :
+  exists (tb : ttable) (jobs : list (list job)) (sched : list nat) (th : thread) (jr : job * result),
+    In th (st_threads (run tb (init jobs) sched)) /\ In jr (th_done th) /\
+    same_result (alone tb (fst jr)) (snd jr) = false.
+Proof.
+  exists [(0, TBad); (1, TNode [0])], [[(0, V [])]; [(1, V [])]],
+         ([0; 0; 0; 0; 0] ++ repeat 1%nat 30 ++ repeat 0%nat 30)%nat.
+  eexists. exists ((1, V []), ROk [1] [false]).
+  split; [vm_compute; right; left; reflexivity|]. split; [vm_compute; left; reflexivity | vm_compute; reflexivity].
+Qed.
+Print Assumptions C17_result_changes_concurrent_refuted.
+
 Theorem C17_full_refuted : ~ C17_full.
 Proof.
-  intro H. destruct C17_never_returns_refuted as (tb & jobs & sched & Hs & Hf & _).
-  destruct (H tb jobs sched) as (_ & _ & H3). rewrite (H3 Hs) in Hf. discriminate.
+  intro H. destruct C17_result_changes_refuted as (tb & jobs & sched & th & jr & H1 & H2 & H3).
+  destruct (H tb jobs sched) as (_ & Hr & _). rewrite (Hr th jr H1 H2) in H3. discriminate.
 Qed.
 Print Assumptions C17_full_refuted.
 
-(* The property for the fragment that excludes exactly that defect class:
-   sessions on which no unsupported type is ever requested (every type of the
-   table is supported).  All three parts of C17_full hold, the second in the
-   stronger form "the result is the reference trace". *)
+(* The property for the fragment that excludes exactly that class: calls whose
+   type or value involves an unsupported type ([job_bad]).  For every other
+   call, in every schedule and whatever the other threads do (including failing
+   on unsupported types): the result is the run-alone result.  The first and
+   the third part hold without any restriction. *)
 Theorem C17_partial :
   forall (tb : ttable) (jobs : list (list job)) (sched : list nat),
-    supported tb ->
     let s := run tb (init jobs) sched in
     race_state s = false /\
     (forall th jr, In th (st_threads s) -> In jr (th_done th) ->
-       exists kinds, snd jr = ROk (ref tb (snd (fst jr)) (fst (fst jr))) kinds) /\
+       ~ job_bad tb (fst (fst jr)) (snd (fst jr)) -> alone tb (fst jr) <> None ->
+       same_result (alone tb (fst jr)) (snd jr) = true) /\
     (stuck tb s = true -> all_finished s = true).
-Proof. exact partial_property. Qed.
+Proof.
+  intros tb jobs sched s. split; [apply no_race|]. split; [apply good_jobs_match_alone | apply no_deadlock].
+Qed.
 Print Assumptions C17_partial.
+
+(* and in the reference-trace form *)
+Theorem C17_calls_without_unsupported_types_return_reference :
+  forall (tb : ttable) (jobs : list (list job)) (sched : list nat) (th : thread) (jr : job * result),
+    In th (st_threads (run tb (init jobs) sched)) -> In jr (th_done th) ->
+    ~ job_bad tb (fst (fst jr)) (snd (fst jr)) ->
+    exists kinds, snd jr = ROk (ref tb (snd (fst jr)) (fst (fst jr))) kinds.
+Proof. exact good_jobs_return_reference. Qed.
+Print Assumptions C17_calls_without_unsupported_types_return_reference.
 
 (* ------------------------------------------------------------------------- *)
 (* Non-vacuity *)
@@ -200,3 +228,25 @@ Proof. vm_compute. repeat split; reflexivity. Qed.
 
 Example C17_example_reference : ref c17_ex_table c17_ex_val 0 = [0; 1; 2; 0; 1].
 Proof. reflexivity. Qed.
+
+(* The former defect: the same failing call twice on one session, and two
+   threads racing on an unsupported type.  Everybody returns (an error); in the
+   race, thread 1 was handed thread 0's placeholder and got the error through
+   the variable written on the failure path (its read is in the log). *)
+Example C17_example_failed_generation_releases_waiters :
+  let s1 := run [(0, TBad)] (init [[(0, V []); (0, V [])]]) (repeat 0%nat 40) in
+  let s2 := run [(0, TBad)] (init [[(0, V [])]; [(0, V [])]]) ([0; 0; 0; 0; 0; 1; 1; 1] ++ repeat 0%nat 10 ++ repeat 1%nat 10)%nat in
+  all_finished s1 = true /\ map (fun th => map snd (th_done th)) (st_threads s1) = [[RPanic; RPanic]] /\
+  all_finished s2 = true /\ map (fun th => map snd (th_done th)) (st_threads s2) = [[RPanic]; [RPanic]] /\
+  existsb (fun e => match e with (1%nat, ERead 0%nat) => true | _ => false end) (st_log s2) = true.
+Proof. vm_compute. repeat split; reflexivity. Qed.
+
+(* non-vacuity of [job_bad] and its negation *)
+Example C17_example_job_bad : job_bad c17_rec_table 2 (V []).
+Proof.
+  left. apply (gb_kid _ 2 3); [left; reflexivity|]. apply (gb_kid _ 3 0); [left; reflexivity|].
+  apply (gb_kid _ 0 4); [right; left; reflexivity|]. apply gb_here. reflexivity.
+Qed.
+
+Example C17_example_job_good : ~ job_bad c17_ex_table 0 c17_ex_val.
+Proof. apply supported_no_job_bad, C17_example_supported. Qed.
